@@ -446,6 +446,9 @@ func (c *Ctx) c02OnOff() error {
 		if i%4 == 0 {
 			p := c08Program(c.RNG, 2+c.RNG.Intn(3))
 			inputs = append(inputs, p.Src+"\nmain()\n")
+		} else if i%8 == 1 { // every call form: variadic functions and methods on local receivers, method values, spreads
+			p := c09Program(c.RNG)
+			inputs = append(inputs, p.Src+"\nmain()\n")
 		} else {
 			p, _ := GenProgram(c.RNG, 2+c.RNG.Intn(3))
 			inputs = append(inputs, p.Src+"\nmain()\n")
